@@ -127,6 +127,8 @@ class PandocParser:
         """
         section: Section | None = None
         section_trace: list[str] = []
+        # header levels of the entries of section_trace, strictly increasing
+        section_levels: list[int] = []
         card = Card(None, template=None)
 
         # Parsing the flat structure, not recursively as in pandocfilters. After
@@ -137,7 +139,13 @@ class PandocParser:
             if item["t"] == "Header":
                 content, level = self._parse_header(item, section_trace=section_trace)
                 res = self._post_process(content)
-                section_trace = section_trace[: level - 1] + [res]
+                # the parent is the nearest preceding header of a lower level,
+                # also when levels are skipped or the first header is not level 1
+                while section_levels and section_levels[-1] >= level:
+                    section_levels.pop()
+                    section_trace.pop()
+                section_levels.append(level)
+                section_trace.append(res)
                 section = self._add_section(res, card=card, section_trace=section_trace)
             else:
                 res = self._post_process(self.mapping(item))
